@@ -709,10 +709,21 @@ impl Context {
         code: &'a str,
         code_source: CodeSource,
     ) -> Result<(Vec<typed_ast::Statement<'a>>, InterpreterResult)> {
+        // The list of imported modules needs to be restored if this input fails at any
+        // stage. Otherwise, a module that was imported by the failing input would be
+        // considered to be loaded, and a later `use` of that module would do nothing.
+        let imported_modules_old = self.resolver.imported_modules.clone();
+
         let statements = self
             .resolver
             .resolve(code, code_source.clone())
-            .map_err(NumbatError::ResolverError)?;
+            .map_err(NumbatError::ResolverError);
+
+        if statements.is_err() {
+            self.resolver.imported_modules = imported_modules_old.clone();
+        }
+
+        let statements = statements?;
 
         let prefix_transformer_old = self.prefix_transformer.clone();
 
@@ -732,6 +743,7 @@ impl Context {
             //     >>> fn f(h_) = 1     # <-- here we want to use 'f' again
             //
             self.prefix_transformer = prefix_transformer_old.clone();
+            self.resolver.imported_modules = imported_modules_old.clone();
         }
 
         let transformed_statements = result?;
@@ -756,6 +768,7 @@ impl Context {
             //
             self.prefix_transformer = prefix_transformer_old.clone();
             self.typechecker = typechecker_old.clone();
+            self.resolver.imported_modules = imported_modules_old.clone();
 
             if self.load_currency_module_on_demand
                 && let Err(NumbatError::TypeCheckError(TypeCheckError::UnknownIdentifier(
@@ -830,6 +843,7 @@ impl Context {
             self.prefix_transformer = prefix_transformer_old;
             self.typechecker = typechecker_old;
             self.interpreter = interpreter_old;
+            self.resolver.imported_modules = imported_modules_old;
         }
 
         let result = result.map_err(|err| NumbatError::RuntimeError(*err))?;
